@@ -449,6 +449,11 @@ def corpus() -> list[dict]:
         pair(V([1, 2, 3, 0, 1]), "1.2.3.0.1", V([1, 2, 3]), "1.2.3"),
         pair(V([3]), "3", V([2, 9, 9]), "2.9.9"),
         pair(V([1, 10, 0]), "1.10.0", V([1, 9, 0]), "1.9.0"),
+        pair(V([1], ["rc", 2]), "1rc2", V([1], ["rc", 1]), "1rc1"),
+        pair(V([1]), "1", V([1], ["rc", 1]), "1rc1"),
+        pair(V([1, 1]), "1.1", V([1]), "1"),
+        pair(V([1, 0, 0, 1]), "1.0.0.1", V([1]), "1"),
+        pair(V([1, 2], ["a", 1]), "1.2a1", V([1, 2, 0], ["a", 0]), "1.2.0-a.0"),
     ]
     return cs
 
@@ -488,7 +493,7 @@ def run(env: Env) -> Outcome:
         if isinstance(rc, dict) and rc.get("kind") in ("pep", "semver", "pair", "raw"):
             cases.append(rc)
     cases += corpus()
-    n = env.budget(2500, 120000)
+    n = env.budget(2500, 600000)
     for _ in range(n):
         m = rng.random()
         if m < 0.30:
